@@ -378,6 +378,7 @@ class Ctx:
         self.prop_modules = []
         self.audit_result = None
         self.partial = ""
+        self.import_error = None
 
     # -- bookkeeping
     @property
@@ -566,8 +567,17 @@ def run_check(prop, module, tier, seed):
     # 1. regenerate + build
     gen = getattr(module, "regenerate", None)
     gen_modules = []
+    ctx.import_error = None
     if gen is not None:
-        import_armi()
+        try:
+            import_armi()
+        except Infra:
+            raise
+        except Exception as e:  # armi itself refuses to import (e.g. the nuclide directory cannot be built)
+            if getattr(module, "on_import_failure", None) is None:
+                raise
+            ctx.import_error = repr(e)
+            ctx.say(f"armi refuses to import: {ctx.import_error[:300]}")
         gen_modules = list(gen(ctx) or [])
     targets = list(getattr(module, "BUILD_TARGETS", [])) + ctx.prop_modules + gen_modules
     ok, out = lake_build(sorted(set(targets)))
@@ -595,8 +605,22 @@ def run_check(prop, module, tier, seed):
             if not okc:
                 raise Infra("leanchecker rejected the property modules: " + outc)
     # 3. correspondence + oracle
-    import_armi()
-    module.run(ctx)
+    if ctx.import_error is None:
+        try:
+            import_armi()
+        except Infra:
+            raise
+        except Exception as e:
+            if getattr(module, "on_import_failure", None) is None:
+                raise
+            ctx.import_error = repr(e)
+    if ctx.import_error is not None:
+        found = list(module.on_import_failure(ctx, ctx.import_error) or [])
+        if not found:
+            raise Infra("armi does not import and the property's import-failure handler found no violation: " + ctx.import_error)
+        ctx.failures.extend(found)
+    else:
+        module.run(ctx)
     # 4/5. verdict + evidence
     violations = decide(ctx, module)
     write_evidence(ctx, violations)
